@@ -134,9 +134,6 @@ SeqOKFrom(U, st, s, i) ==      \* IF, not \/: TLC explores both sides of a disju
     ELSE IF InstOK(U, st, s[i]) THEN SeqOKFrom(U, StepSt(st, s[i].t), s, i + 1) ELSE FALSE
 SeqOK(U, s) == SeqOKFrom(U, St0, s, 1)
 
-RECURSIVE StAfter(_, _, _)
-StAfter(st, s, i) == IF i > Len(s) THEN st ELSE StAfter(StepSt(st, s[i].t), s, i + 1)
-
 \* the reported pool as instances: v1 then v2; the flags of a pooled v2 transaction are forced by
 \* validity (an input is ephemeral exactly when the tip's ledger does not hold it)
 EphAtTip(t)   == Ins(t) \ utxo
@@ -227,7 +224,6 @@ AddResults(k, b, s) ==
         anyBad == \E i \in 1..Len(s) : s[i].bad
         kindsOK == (\A i \in 1..Len(s) : Kind(s[i].t) = k) /\ (k = "v1" => S.v1ok)     \* v1 is refused once v2 is required
         rb == IF k = "v2" /\ ~unknownBasis THEN RebaseWalk(Strip(s), b, tip) ELSE [err |-> FALSE, set |-> Strip(s)]
-        hasEph == \E i \in 1..Len(s) : s[i].eph # {}
     IN
     IF unknownBasis \/ anyBad \/ ~kindsOK THEN {errR}
     ELSE IF rb.err THEN {errR}
